@@ -182,14 +182,26 @@ class MetadorMeta:
         # reserve UUID, construct dataset path and store metadata object
         obj_uuid = self._mc.metador._links.fresh_uuid()
         obj_path = f"{self._base_dir}/{_ep_name_for(schema_ref)}={str(obj_uuid)}"
-        # store object
-        self._mc.__wrapped__[obj_path] = bytes(obj)
-        obj_node = self._mc.__wrapped__[obj_path]
-        assert isinstance(obj_node, H5DatasetLike)
-        stored_obj = StoredMetadata(uuid=obj_uuid, schema=schema_ref, node=obj_node)
-        self._objs[schema_ref.name] = stored_obj
-        # update TOC
-        self._mc.metador._links.register(stored_obj)
+        try:
+            # store object
+            self._mc.__wrapped__[obj_path] = bytes(obj)
+            obj_node = self._mc.__wrapped__[obj_path]
+            assert isinstance(obj_node, H5DatasetLike)
+            stored_obj = StoredMetadata(
+                uuid=obj_uuid, schema=schema_ref, node=obj_node
+            )
+            self._objs[schema_ref.name] = stored_obj
+            # update TOC
+            self._mc.metador._links.register(stored_obj)
+        except Exception:
+            # undo: neither the object nor its reserved UUID may stay without TOC entry
+            self._mc.metador._links._toc_path.pop(obj_uuid, None)
+            self._objs.pop(schema_ref.name, None)
+            if obj_path in self._mc.__wrapped__:
+                del self._mc.__wrapped__[obj_path]
+                if not self._mc.__wrapped__.require_group(self._base_dir).keys():
+                    del self._mc.__wrapped__[self._base_dir]
+            raise
         return
 
     def _del_raw(self, schema_name: str, *, _unlink: bool = True) -> None:
@@ -629,27 +641,32 @@ class TOCSchemas:
         if schema_ref in self._schemas:
             return  # nothing to do
 
-        # store json schema
+        # collect everything first (lookups may fail, nothing must be half-registered)
         schema_cls = schemas.get(schema_ref.name, schema_ref.version)
         jsonschema_dat = schema_cls.schema_json().encode("utf-8")
+        parents = schemas.parent_path(schema_ref.name, schema_ref.version)
+        parents_dat: bytes = json.dumps(list(map(lambda x: x.dict(), parents))).encode(
+            "utf-8"
+        )
+        # providing package is needed if no stored package provides the schema
+        need_pkg = not self._pkgs._providers.get(schema_ref, [])
+        if need_pkg:
+            env_pkg_info: PluginPkgMeta = schemas.provider(schema_cls.Plugin.ref())
+            pkg_name_ver = (str(env_pkg_info.name), env_pkg_info.version)
+            self._pkgs._pkginfo_path_for(*pkg_name_ver)  # name must be storable
+
+        # store json schema
         jsonschema_path = self._jsonschema_path_for(schema_ref)
         self._raw[jsonschema_path] = jsonschema_dat
 
         # store parent schema refs
         compat_path = f"{self._schema_path_for(schema_ref)}/compat"
-        parents = schemas.parent_path(schema_ref.name, schema_ref.version)
-        parents_dat: bytes = json.dumps(list(map(lambda x: x.dict(), parents))).encode(
-            "utf-8"
-        )
-
         self._raw[compat_path] = parents_dat
         self._schemas.add(schema_ref)
         self._update_parents_children(schema_ref, parents)
 
-        # add providing package (if no stored package provides it)
-        if not self._pkgs._providers.get(schema_ref, []):
-            env_pkg_info: PluginPkgMeta = schemas.provider(schema_cls.Plugin.ref())
-            pkg_name_ver = (str(env_pkg_info.name), env_pkg_info.version)
+        # add providing package
+        if need_pkg:
             self._pkgs._register(pkg_name_ver, env_pkg_info)
             self._used[pkg_name_ver] = set()
 
